@@ -273,6 +273,17 @@ def _limit_programs():
 
 SEMANTIC += _limit_programs()
 
+# found by reading a sub-agent's remarks (round 7): valid programs next to rules whose boundary no corpus program touched
+SEMANTIC += ['f(x:=1, y)\n', 'f(a, x:=1, b)\n', 'f(x:=1, x=2)\n', 'f((x:=1), y)\n', 'f(x:=1, *y, **z)\n', 'f(a, b:=2, c=3)\n', 'print(n:=3, n)\n',
+             "'a' 'b'\nfrom __future__ import division\n", "('a')\nfrom __future__ import division\n", "'d' 'e' 'f'\nfrom __future__ import annotations\nx: int\n",
+             '"""a""" "b"\nfrom __future__ import print_function\n', "'a'\n'b'\nimport x\n",
+             'try:\n    pass\nfinally:\n    for x in y:\n        continue\n', 'while 1:\n    try:\n        pass\n    finally:\n        while z:\n            continue\n',
+             'for i in j:\n    try:\n        pass\n    finally:\n        def g():\n            for k in l:\n                continue\n',
+             'for i in j:\n    try:\n        continue\n    finally:\n        pass\n', 'for i in j:\n    try:\n        pass\n    except E:\n        continue\n    finally:\n        pass\n',
+             'def f():\n    g(a=1)\n    global a\n', 'def f():\n    g(**{"a": 1})\n    global a\n', 'def f():\n    x.a = 1\n    global a\n',
+             'f"{x:{a:>5}{b}}"\n', 'f"{x:{a}{b}}"\n', 'f"{x:{a:{b}}}"\n', 'f"{x:{a:>5}}"\n', 'f"{x:>{a}<{b}}"\n', "f'{x:{a!r:>5}{b}}'\n", 'f"{x:{a:>5}{b:<3}c}"\n',
+             'x = 1\n\x0cy = 2\n', 'def f():\n    a\n\x0c    b\n']
+
 # ---- programs that make each rule of errors.py fire (or sit just beyond its boundary): the error finder must list them without raising ----
 INVALID = [
     'def f():\n    global x\n    nonlocal x\n', 'def f():\n    nonlocal x\n', 'def f():\n    x = 1\n    global x\n', 'def f():\n    print(x)\n    global x\n',
@@ -316,11 +327,31 @@ SEMANTIC += ['f().x += 1\n', "globals()['c'] += 1\n", 'super().total -= 1\n', '(
 WRAPS = ['', '', '', 'def w():\n', 'async def w():\n', 'class W:\n', 'if c:\n', 'for q in p:\n', 'while c:\n', 'try:\n', 'with m:\n', 'def w():\n    def v():\n', 'class W:\n    def m(self):\n']
 
 
+
+def _target_programs():
+    """every expression shape in every target position (assignment, augmented, annotated, del, for, with-as, named expression, comprehension,
+    import-as is not an expression): the rules about targets must list or accept them without raising"""
+    shapes = ['x', 'x.y', 'x[0]', 'x[1:2]', 'f()', 'f().a', 'f()[0]', 'x ** y', 'a.b ** c', 'x ** -y', 'await x', 'await x.y', '-x', 'not x', '~x', 'x + y', 'x * y', 'x @ y',
+              'x < y', 'x is y', 'x in y', 'x and y', 'x or y', 'x if y else z', 'lambda: x', 'lambda a: a', '(x)', '((x))', '(x.y)', '(x, y)', '(x,)', '()', '[]', '[x]', '[x, y]',
+              '[x, *y]', '*x', '*x, y', '(*x, y)', 'x, y', 'x, (y, z)', '{}', '{x}', '{x: y}', '[a for a in b]', '(a for a in b)', '{a for a in b}', '{a: b for a in c}',
+              '1', '1.5', '1j', '"s"', 'b"s"', 'f"{x}"', 'f"s"', '"a" "b"', 'None', 'True', 'False', '...', '__debug__', 'yield', 'yield x', '(yield)', '(yield x)',
+              'x := 1', '(x := 1)', 'x.y.z', 'x[0][1]', 'x()()', '(x)[0]', '(x).y', '[x][0]', 'x if y else z.a', '`x`', 'x!', 'print', 'x[y:=1]', 'x[*y]', '*x.y', '**x']
+    ctxs = ['%s = 1\n', '%s: int\n', '%s: int = 1\n', '(%s): int = 1\n', '%s += 1\n', '%s @= 1\n', 'del %s\n', 'del (%s)\n', 'del [%s]\n', 'for %s in z: pass\n',
+            'with z as %s: pass\n', 'with (z as %s): pass\n', '[1 for %s in z]\n', '(%s := 1)\n', 'a = %s = 1\n', '%s, b = 1, 2\n', '[%s, b] = 1, 2\n', 'async def f():\n    %s: int = 1\n',
+            'async def f():\n    async for %s in z: pass\n', 'def f():\n    %s = yield\n', 'try: pass\nexcept E as %s: pass\n', 'import m as %s\n', 'f(%s=1)\n', 'def f(a=%s): pass\n',
+            'x = %s = yield\n', 'match z:\n    case %s: pass\n']
+    return [c % s for c in ctxs for s in shapes]
+
+
+TARGETS = _target_programs()
+
+
 def semantic(r):
     """one to three near-miss programs, optionally nested inside a function / class / loop / try"""
     out = []
     for _ in range(r.randint(1, 3)):
-        src = r.choice(SEMANTIC) if r.random() < 0.65 else r.choice(INVALID)
+        k = r.random()
+        src = r.choice(SEMANTIC) if k < 0.6 else r.choice(INVALID) if k < 0.85 else r.choice(TARGETS)
         w = r.choice(WRAPS)
         if w:
             depth = w.count('\n')
@@ -363,8 +394,40 @@ def derived_any(r):
     return derived(r, r.choice(['3.6', '3.8', '3.10', '3.12', '3.14']))
 
 
+BREAK_KW = ['import', 'class', 'def', 'try', 'except', 'finally', 'while', 'with', 'return', 'continue', 'break', 'del', 'pass', 'global', 'assert', 'nonlocal',
+            'async', 'await', 'if', 'else', 'elif', 'for', 'lambda', 'yield', 'raise', 'from', 'in', 'is', 'not', 'match', 'case']
+KW_NAMES = ['delta', 'classes', 'passed', 'imports', 'defs', 'tryit', 'excepts', 'finallyx', 'whiles', 'withal', 'returned', 'continued', 'breaker',
+            'globals_', 'asserts', 'nonlocals', 'iffy', 'elsewhere', 'forx', 'de', 'clas', 'impor', 'retur', 'Del', 'Class']
+
+
+def brackbreak(r):
+    """statements broken off inside open brackets / f-strings: continuation lines at every indentation relative to the block, starting with
+    keywords that always break a bracket, identifiers that merely begin like one, and the keyword again later on the line"""
+    out = []
+    depth = r.choice([0, 0, 4, 8, 8, 12, 2])
+    lvl = 0
+    while lvl < depth:
+        out.append(' ' * lvl + r.choice(['def f():\n', 'if a:\n', 'class K:\n', 'for i in j:\n', 'try:\n', 'while x:\n']))
+        lvl = min(depth, lvl + r.choice([2, 4, 4, 8]))
+    ind = ' ' * depth
+    opener = r.choice(['x = foo(', 'y = [', 'z = {', 'print(a,', 'q = (1 +', 'f"{a +', 'w = f(b)[', 'v = {1: (', 'foo(bar(', "s = f'" + "''{"])
+    out.append(ind + opener + r.choice(['\n', ' b,\n', ' # c\n', '\\\n']))
+    for _ in range(r.randint(1, 4)):
+        ci = max(0, depth + r.choice([-8, -6, -4, -3, -2, -1, 0, 0, 1, 2, 4, 4, 8]))
+        kw = r.choice(BREAK_KW)
+        first = r.choice([kw, kw, r.choice(KW_NAMES), kw + 'x', kw[:-1] if len(kw) > 2 else kw, 'a', '1', ')', ']'])
+        rest = r.choice(['', ', ' + kw, ' ' + kw, ', ' + kw + ' b', ' = 1', ' x, y', '(c)', ': pass', ' a: ' + kw + ' b', ', b)', ' ]', ' import z', ''])
+        out.append(' ' * ci + first + rest + r.choice(['\n', '\n', ' # t\n', ')\n', ']\n', '}\n']))
+    if r.random() < 0.6:
+        out.append(' ' * max(0, depth + r.choice([-4, 0, 0, 4])) + r.choice(['y = 2\n', 'return 1\n', 'pass\n', 'else:\n    z\n']))
+    s = ''.join(out)
+    if r.random() < 0.15:
+        s = s.replace('\n', r.choice(['\r\n', '\r']))
+    return s
+
+
 KINDS = [('garbage', garbage, 25), ('lines', lines, 15), ('oneliner', oneliner, 30), ('valid', valid, 10),
-         ('mutate', mutate, 15), ('corpus', corpus, 5), ('derived', derived_any, 10), ('fstrings', fstrings, 20), ('reindent', reindent, 25), ('semantic', semantic, 20), ('longlines', longlines, 8)]
+         ('mutate', mutate, 15), ('corpus', corpus, 5), ('derived', derived_any, 10), ('fstrings', fstrings, 20), ('reindent', reindent, 25), ('semantic', semantic, 20), ('longlines', longlines, 8), ('brackbreak', brackbreak, 15)]
 
 
 def text_case(seed, stream, index, kinds=None):
